@@ -10,6 +10,7 @@ if ! git -C /repo diff --quiet; then echo "refusing: /repo has uncommitted chang
 git -C /repo apply $rev "$patch" || { echo "patch does not apply" >&2; exit 2; }
 # restore the tree and the simulator binary built from it
 trap 'git -C /repo checkout -- . ; (cd /verif/sim && cargo build --release --offline -q 2>/dev/null)' EXIT INT TERM
+export H2SIM_EVIDENCE_DIR=/verif/target/evidence-scratch
 for id in "$@"; do
   out=$(/verif/check "$id" quick 2>&1); code=$?
   echo "== $id exit=$code"
